@@ -26,4 +26,40 @@ PROPS["C07"] = {
     "assumptions": ["unix build (filepath.Separator == '/')"],
 }
 
+_H1_NOTE = ("Trusted: Lean kernel; translator for byte tables and header-name constants; harness (scripted net.Conn behind the real "
+            "standard.Conn via hook H1, echo middleware on the real Engine) and driver. The loop model covers buffered request bodies; "
+            "multipart pre-parsing is switched off; netpoll transport is not exercised (its Reader is trusted to be a FIFO).")
+PROPS["C01"] = {
+    "modules": ["Hertz.Props.C01"],
+    "rule": "Streams of 1..6 pipelined requests from a grammar generator (methods, targets, repeated/mixed-case/near-miss framing names incl. "
+            "bit-5 neighbours, obs-fold, body sizes 0..65537 around 4 KiB/8 KiB, Content-Length or chunked with arbitrary chunk sizes, hex case, "
+            "leading zeros, trailers, Expect: 100-continue, close), 85% well-formed, delivered under random segmentation; plus raw request heads.",
+    "level_text": "Lean model of the HTTP/1 request reader and keep-alive loop mirrors the Go code and is compared with the real server on every case; "
+                  "theorems: framing names are recognised exactly by ASCII-case-insensitive equality (table regenerated from source), every handled "
+                  "request is followed by exactly its own response, in order. The implementation's view of each request is checked against an "
+                  "independent strict RFC 7230 decoder on every well-formed stream.",
+    "level_note": _H1_NOTE + " Open: model-refines-strict-decoder theorem (checked per case).",
+    "assumptions": ["standard transport", "DisablePreParseMultipartForm"],
+}
+PROPS["C02"] = {
+    "modules": ["Hertz.Props.C02"],
+    "rule": "250 (quick) / 6000 (thorough) streams of <=420 bytes, each under EVERY two-way split, byte-wise delivery and random k-way splits, "
+            "plus longer streams under random splits; every run must equal the model's single answer for the concatenation.",
+    "exhaustive_note": "all two-way split points of each generated stream are enumerated",
+    "level_text": "The model is a function of the concatenated stream; the real server is run under all two-way splits and byte-wise delivery of each stream "
+                  "and must match it. Theorems: stability of the header-block completeness pre-check and of delimiter positions under appended bytes.",
+    "level_note": _H1_NOTE + " Client-side (response) segmentation is covered under C11.",
+    "assumptions": ["standard transport"],
+}
+PROPS["C03"] = {
+    "modules": ["Hertz.Props.C03"],
+    "rule": "Mostly malformed streams: structure-aware mutations (byte delete/replace/insert/swap, truncation, bit-5 flips) of generated requests, raw "
+            "request heads with hostile lines; EOF or stalled peer at any point; with recover() around the server.",
+    "level_text": "Theorem: every error the loop model emits is one 400/413/408 carrying Connection: close, last on the wire, with no handler run; the model "
+                  "matches the real server on every malformed stream explored; output bytes are re-parsed by a strict response reader; a panic is an outcome "
+                  "the model never produces.",
+    "level_note": _H1_NOTE + " Public parsers of URIs/cookies are covered under C17/C07; client response path under C11.",
+    "assumptions": ["standard transport", "default engine without recovery middleware"],
+}
+
 NOT_CLAIMED = {}
